@@ -90,11 +90,35 @@ def corpus_grammars():
                ("R2", ("seq", [c("b"), A(1)]))])
     gs.append([("R0", ("seq", [("not", ("seq", [N("R1"), c("z")])), ("push", ("seq", [N("R1"), ("push", ("star", ("dot",)))])), A(0)])),
                ("R1", ("plus", ("alt", [("istr", [97]), ("cls", False, True, [("r", 98, 99)])])))])
-    return [dict(id="c%d" % i, rules=r, nact=3) for i, r in enumerate(gs)]
+    out = [dict(id="c%d" % i, rules=r, nact=3) for i, r in enumerate(gs)]
+    # minimised failures kept as corpus (they run first, with the input that separated implementation and model pinned):
+    # a memoised zero-width success replayed beyond every non-empty token, in a parse that then fails (seed C06-replay-maxtoken-guard)
+    out.append(dict(id="c%d" % len(out), nact=3, pinned=["ycw", "bzxw", "bbyw"], rules=[
+        ("R0", ("seq", [("seq", [("plus", ("alt", [("seq", [("and", ("seq", [("push", N("M0")), c("z")])), N("T0"), N("T0"), c("y")]),
+                                                    ("seq", [N("M0"), c("y")]),
+                                                    ("seq", [("and", ("seq", [("push", N("T1")), c("a")])), N("M0"), N("T1"), c("z")]),
+                                                    N("T0")])),
+                                 ("q", ("seq", [c("w"), N("M1")]))]), ("not", ("dot",))])),
+        ("M0", ("seq", [N("T1"), N("T1"), A(0)])),
+        ("M1", ("alt", [("seq", [N("T1"), N("T1")]), N("T1")])),
+        ("T0", ("push", c("b"))),
+        ("T1", ("q", c("b")))]))
+    out.append(dict(id="c%d" % len(out), nact=3, pinned=["d,\nz", "d,z", "dcx"], rules=[
+        ("R0", ("seq", [("seq", [("alt", [("seq", [N("T2"), N("T1"), c("x")]),
+                                           ("seq", [("not", ("seq", [("push", N("M0")), A(0), c("a")])), N("T2"), c(","), N("T1"), c("z")]),
+                                           ("seq", [N("T2"), c(","), N("T1"), c(","), c("z")])]),
+                                 ("q", ("seq", [c("w"), N("T0")]))]), ("not", ("dot",))])),
+        ("M0", ("seq", [N("T1"), N("T2")])),
+        ("T0", c("d")),
+        ("T1", ("push", ("star", c("c")))),
+        ("T2", c("d"))]))
+    return out
 
 
 def make_inputs(ctx, g, n):
-    return P.grammar_inputs(ctx.rng, g["rules"], n)
+    gen = P.grammar_inputs(ctx.rng, g["rules"], n)
+    pinned = list(g.get("pinned", []))
+    return pinned + gen[:max(0, n - len(pinned))]
 
 
 def core_key(ctx, bd):
